@@ -179,7 +179,7 @@ def _owner(b, prog):
     x = b
     while x.kind == "Closure" and x.parent in prog.by_id:
         x = prog.by_id[x.parent]
-    return x.nname
+    return getattr(x, "alias_of", None) or x.nname          # a known function found under a new path (moved to another module) is the same stage
 
 
 def r5_issuance_confinement(ctx):
@@ -298,7 +298,9 @@ def r8_subsidy_peg(ctx):
         for val in (1, 0):
             f = force(t, {e: val for e in flag})
             tot = q.Lin()
-            for bi, e in sm:
+            with t.restricted(f.reach):
+                sm_f = q.call_exprs(t, "PoolState::swap_many")
+            for bi, e in sm_f:
                 arg = q.resolve_phis(t, e[2][2], f.reach)
                 tot = tot + _lin_reward(arg, rw[0][1])
                 r.check(q.const_val(e[2][1]) == 0, "subsidy/sym-side@%d" % val, "only the SYM side is injected", "injection (%s, ..)" % sig(e[2][1]), t.where(bi))
